@@ -27,13 +27,39 @@ SINKS = {'open', 'os.walk', 'os.stat', 'os.path.isfile', 'os.path.exists', 'os.p
 def run(ctx: Any, prog: Program) -> None:
     fs = prog.module('filesys')
     raw = fs.methods('RawFileSystem')
-    ctx.not_decided += ['symlinks inside the root', 'case-insensitive file systems', 'packlist.unify_path (outside the property statement)']
+    ctx.not_decided += ['symlinks inside the root', 'case-insensitive file systems', 'what PackList does with an accepted pack path']
     ctx.assumptions += ['os.path.abspath normalises ".." components lexically and returns a path without trailing separator (except the filesystem root)']
     ctx.rule('C18.S1', 'the containment test cannot be satisfied by a sibling directory whose name extends the root name', floor=1)
     ctx.rule('C18.S2', 'every file-system call of RawFileSystem receives a path returned by _resolve_path', floor=5)
     ctx.rule('C18.S3', '_resolve_path normalises with abspath(join(root, path)), raises RootEscapeError only when constrained; constraint on by default', floor=5)
     ctx.rule('C18.S4', 'FileSystemChain touches member filesystems only through their public lookup/walk/open methods', floor=2)
 
+    # ---- S5: the pack-path normaliser (third anchor of the property) --------------------------------------------------------------
+    ctx.rule('C18.S5', "unify_path refuses every name that still has a '..' component after normalisation, tested on the slash-converted text", floor=2)
+    pk = prog.module('packlist')
+    up = pk.func('unify_path')
+    prm = up.args.args[0].arg
+    conv = [a for a in walk_no_nested(up) if isinstance(a, ast.Assign) and dotted(a.targets[0]) == prm and "replace('\\\\', '/')" in ast.unparse(a.value) and 'normpath' in ast.unparse(a.value)]
+    ctx.shape('C18.S5', len(conv) == 1, pk, up, 'unify_path normalises with normpath(...) and converts backslashes to slashes in one assignment', func='unify_path', text='unify_path normalisation')
+    guards_ = [i for i in walk_no_nested(up) if isinstance(i, ast.If) and i.body and isinstance(i.body[-1], ast.Raise)]
+    if len(guards_) != 1:
+        ctx.shape('C18.S5', False, pk, up, 'one raising escape test expected in unify_path', func='unify_path', text='unify_path escape test')
+    else:
+        g_ = guards_[0]
+        t_ = g_.test
+        after_conv = bool(conv) and g_.lineno > conv[0].lineno
+        ctx.check('C18.S5', after_conv, pk, g_, 'the escape test must look at the text after backslashes were turned into slashes: os.path.normpath does not treat a backslash as a separator on POSIX, so `a\\..\\..\\x` '
+                  'reaches the test uncollapsed', func='unify_path', text='escape test after slash conversion')
+        substring = isinstance(t_, ast.Compare) and len(t_.ops) == 1 and isinstance(t_.ops[0], ast.In) and isinstance(t_.left, ast.Constant) and t_.left.value in ('../', '..', '/..') and dotted(t_.comparators[0]) == prm
+        component = isinstance(t_, ast.Compare) and len(t_.ops) == 1 and isinstance(t_.ops[0], ast.In) and isinstance(t_.left, ast.Constant) and t_.left.value == '..' and 'split' in ast.unparse(t_.comparators[0])
+        prefix_only = any(isinstance(c, ast.Call) and isinstance(c.func, ast.Attribute) and c.func.attr == 'startswith' and dotted(c.func.value) == prm for c in ast.walk(t_)) and not substring and not component
+        if substring or component:
+            ctx.check('C18.S5', True, pk, g_, 'every remaining `..` component is refused', func='unify_path', text='escape test covers inner components')
+        elif prefix_only:
+            ctx.check('C18.S5', False, pk, g_, f'unify_path only refuses names that START with `../` (`{ast.unparse(t_)[:60]}`): on POSIX normpath leaves backslash-spelled `..` components in place, and after the slash '
+                      'conversion `cfg\\..\\..\\..\\x` is the accepted name `cfg/../../../x`', func='unify_path', text='escape test covers inner components')
+        else:
+            ctx.shape('C18.S5', False, pk, g_, f'escape test `{ast.unparse(t_)[:60]}` is not an enumerated form', func='unify_path', text='escape test covers inner components')
     rp = raw.get('_resolve_path')
     if rp is None:
         raise AnalysisError('RawFileSystem._resolve_path not found')
@@ -182,6 +208,7 @@ def run(ctx: Any, prog: Program) -> None:
 
 
 MUTANTS = [
+    {'id': 'unify_path_prefix_test_only', 'file': 'packlist.py', 'find': "    if '../' in path:", 'replace': "    if path.startswith('../'):", 'expect': 'C18.S5'},
     {'id': 'relpath_misses_exact_parent', 'file': 'filesys.py', 'find': "        if self.constrain_path and abs_path != self.path and not abs_path.startswith(os.path.join(self.path, '')):", 'replace': "        if self.constrain_path and os.path.relpath(abs_path, self.path).startswith(os.pardir + os.sep):", 'expect': 'C18.S1'},
     {'id': 'relpath_sound_form', 'file': 'filesys.py', 'find': "        if self.constrain_path and abs_path != self.path and not abs_path.startswith(os.path.join(self.path, '')):", 'replace': "        if self.constrain_path and (os.path.relpath(abs_path, self.path) == os.pardir or os.path.relpath(abs_path, self.path).startswith(os.pardir + os.sep)):", 'expect': None},
     {'id': 'bare_prefix_test', 'file': 'filesys.py', 'find': "if self.constrain_path and abs_path != self.path and not abs_path.startswith(os.path.join(self.path, '')):", 'replace': "if self.constrain_path and not abs_path.startswith(self.path):", 'expect': 'C18.S1'},
